@@ -77,7 +77,7 @@ class TwoTimeBathCorrelations(BaseAPIClass):
         if system_correlations is None:
             self._system_correlations = np.array([[]], dtype=NpDtype)
         else:
-            self._system_correlations = system_correlations
+            self._system_correlations = np.array(system_correlations)
         self._temp = bath.correlations.temperature
         self._bath_correlations = {}
         super().__init__(name, description)
